@@ -86,10 +86,10 @@ func (x *Exec) resultVal(cfg *Config, hint string, sig *types.Signature) Val {
 	case 0:
 		return TupV{}
 	case 1:
-		return x.symbolicOf(cfg.st, x.d.Fresh(hint, SInt).S+"!r", res.At(0).Type())
+		return x.symbolicOf(cfg.st, x.d.FreshName(hint)+"!r", res.At(0).Type())
 	}
 	var tv TupV
-	base := x.d.Fresh(hint, SInt).S
+	base := x.d.FreshName(hint)
 	for i := 0; i < res.Len(); i++ {
 		tv = append(tv, x.symbolicOf(cfg.st, fmt.Sprintf("%s!r%d", base, i), res.At(i).Type()))
 	}
@@ -224,6 +224,9 @@ func ssaFullName(fn *ssa.Function) string {
 }
 
 func inModuleOrInlinable(fn *ssa.Function) bool {
+	if fn.Origin() != nil {
+		fn = fn.Origin() // instantiations belong to their generic's package
+	}
 	root := fn
 	for root.Parent() != nil {
 		root = root.Parent()
